@@ -614,7 +614,14 @@ module G = struct
       (let hb = has_chroma_block s0.profile_idc in
        S.concat "." [ii (display_width s0); ii (display_height s0); ii s0.profile_idc; ii (compat_byte s0); ii s0.level_idc;
                      ii (eff_chroma_format_idc s0); ii (if hb then s0.bit_depth_luma_minus8 else N0);
-                     ii (if hb then s0.bit_depth_chroma_minus8 else N0)])
+                     ii (if hb then s0.bit_depth_chroma_minus8 else N0)]);
+    (* GI: what the first SPS exercises (statistics for the evidence; ignored by the harness) *)
+    (let vu = s0.vui_params in
+     let idc = int_of_n vu.aspect_ratio_idc in
+     let nonsq = s0.vui_parameters_present_flag && vu.aspect_ratio_info_present_flag
+                 && ((idc = 255 && vu.sar_width <> vu.sar_height) || (idc >= 2 && idc <= 16)) in
+     Printf.printf "GI\tA\t%d\tnonsquare_sar=%d\tcropped=%d\tfield_coded=%d\n" i (if nonsq then 1 else 0)
+       (if s0.frame_cropping_flag then 1 else 0) (if s0.frame_mbs_only_flag then 0 else 1))
 
   let gen_hevc_set (i : int) =
     let ns = pick [1; 1; 1; 2] in
@@ -628,7 +635,13 @@ module G = struct
     Printf.printf "PSH\t%d\t%s\t%s\t%s\n" i (hexl (L.map hnalu_sps spss)) (hexl (L.map hnalu_pps ppss))
       (S.concat "." [ii w; ii h; ii g.sx_profile_space; b2i g.sx_tier_flag; ii g.sx_profile_idc; ii g.sx_profile_compatibility_flags;
                      ii (constraint48 g); ii s0.sx_sps_ptl.sx_general_level_idc; ii s0.sx_chroma_format_idc;
-                     ii s0.sx_bit_depth_luma_minus8; ii s0.sx_bit_depth_chroma_minus8])
+                     ii s0.sx_bit_depth_luma_minus8; ii s0.sx_bit_depth_chroma_minus8]);
+    (let vu = s0.sx_vui in
+     let idc = int_of_n vu.sx_aspect_ratio_idc in
+     let nonsq = s0.sx_vui_parameters_present_flag && vu.sx_aspect_ratio_info_present_flag
+                 && ((idc = 255 && vu.sx_sar_width <> vu.sx_sar_height) || (idc >= 2 && idc <= 16)) in
+     Printf.printf "GI\tH\t%d\tnonsquare_sar=%d\tcropped=%d\tfield_coded=%d\n" i (if nonsq then 1 else 0)
+       (if s0.sx_conformance_window_flag then 1 else 0) 0)
 
   let run (seed : int) (cnt : int) =
     seed_rng seed;
@@ -647,8 +660,21 @@ let () =
         let ops = if ops = "-" then [] else L.map parse_op (split_on ';' ops) in
         let (ocs, s) = run avc_parse hevc_parse ops in
         let m = state_string ocs s in
-        if m = obs then Printf.printf "OK %s\n" id
-        else Printf.printf "MISMATCH %s model=%s\n" id m
+        (* the parsers of theorems C19_descriptor_avc_dims / _hevc_dims (C15's models of avc/hevc.ParseSPSNALUnit) must give,
+           on the first SPS of every AVC/HEVC call of the case, the answer the real parser gave (carried by the op) *)
+        let first_sps = L.filter_map (function
+            | SetDesc (_, DAvc (_, sps0 :: _, _, _)) -> Some (true, sps0)
+            | SetDesc (_, DHevc (_, _, sps0 :: _, _, _, _)) -> Some (false, sps0)
+            | _ -> None) ops in
+        let pm = L.find_opt (fun (is_avc, sps0) ->
+            if is_avc then C19DimsProofs.c15_avc_parser sps0 <> avc_parse sps0
+            else C19DimsProofs.c15_hevc_parser sps0 <> hevc_parse sps0) first_sps in
+        if m <> obs then Printf.printf "MISMATCH %s model=%s\n" id m
+        else (match pm with
+            | Some (is_avc, sps0) ->
+              Printf.printf "MISMATCH %s model=%s-differs-from-the-real-parser-on-%s\n" id
+                (if is_avc then "c15_avc_parser" else "c15_hevc_parser") (hex_of_str sps0)
+            | None -> Printf.printf "OK %s\n" id)
       | ["M"; id; pat; obs] ->
         (* MoovBox.AddChild of a trak on a moov whose children are given by pat (h mvhd, x mvex, t trak) *)
         let dummy i = { tk_id = n_of_int i; tk_volume = N0; tk_width = N0; tk_height = N0; md_timescale = N0; md_lang = N0;
